@@ -138,7 +138,7 @@ type pCred struct {
 
 // mkReq builds a request case: the concrete request for the driver and its abstract description.
 func mkReq(id, method, path string, creds []pCred, a *aspec.ASpec) driver.ReqCase {
-	rc := driver.ReqCase{ID: id, Method: method, Path: path, Headers: map[string][]string{}}
+	rc := driver.ReqCase{ID: id, Method: method, Path: path, Headers: map[string][]string{}, Script: driver.Script{Parse: true}}
 	kind := "other"
 	segs := []string{}
 	if strings.HasPrefix(path, "/") {
@@ -280,6 +280,7 @@ func runPipeline(c *core.Check, specs map[string]*aspec.ASpec, groups []pGroup) 
 		run.events = append(run.events, bs)
 	}
 	gi := -1
+	var caseOf map[string]*driver.ReqCase // cases of the current group by id
 	for _, raw := range evs {
 		var e map[string]any
 		if err := json.Unmarshal(raw, &e); err != nil {
@@ -296,6 +297,7 @@ func runPipeline(c *core.Check, specs map[string]*aspec.ASpec, groups []pGroup) 
 			return nil, false
 		case "Group":
 			gi = int(e["group"].(float64))
+			caseOf = nil
 			g := kept[gi]
 			add(map[string]any{"ev": "Config", "cfg": pipelineCfg(*g.ASpec, g.API)})
 			if _, ok := specText[g.Pkg]; !ok {
@@ -315,6 +317,28 @@ func runPipeline(c *core.Check, specs map[string]*aspec.ASpec, groups []pGroup) 
 				tag = tag[:i]
 			}
 			add(map[string]any{"ev": "Handler", "op": e["op"], "tag": tag, "tmpl": e["tmpl"], "has": e["has"]})
+		case "Parse":
+			okp, _ := e["ok"].(bool)
+			mayFail := gi < 0 || specDeclaresParams(kept[gi].ASpec)
+			if gi >= 0 && !mayFail {
+				// (a credential header or key supplied more than once is "a scalar supplied more than once")
+				if caseOf == nil {
+					caseOf = map[string]*driver.ReqCase{}
+					for k := range kept[gi].Cases {
+						caseOf[kept[gi].Cases[k].ID] = &kept[gi].Cases[k]
+					}
+				}
+				if rc := caseOf[cid]; rc != nil {
+					for _, vs := range rc.Headers {
+						mayFail = mayFail || len(vs) > 1
+					}
+					q, _ := url.ParseQuery(rc.RawQuery)
+					for _, vs := range q {
+						mayFail = mayFail || len(vs) > 1
+					}
+				}
+			}
+			add(map[string]any{"ev": "Parsed", "ok": okp, "mayFail": mayFail})
 		case "NotFound":
 			add(map[string]any{"ev": "NotFound", "custom": e["custom"]})
 		case "Cors":
@@ -329,6 +353,27 @@ func runPipeline(c *core.Check, specs map[string]*aspec.ASpec, groups []pGroup) 
 		}
 	}
 	return run, true
+}
+
+// specDeclaresParams: does any operation of the spec declare a parameter or a path variable (anything Parse() could
+// find missing or malformed)?
+func specDeclaresParams(a *aspec.ASpec) bool {
+	for _, pi := range a.Paths {
+		if len(pi.Params) > 0 {
+			return true
+		}
+		for _, sg := range pi.Template {
+			if sg.K == "var" {
+				return true
+			}
+		}
+		for _, op := range pi.Ops {
+			if len(op.Params) > 0 || op.Body.K != "none" && op.Body.K != "" {
+				return true
+			}
+		}
+	}
+	return false
 }
 
 // judgePipeline runs Trace_Pipeline and reports rejects.  kfOther lists finding keys that belong
